@@ -62,7 +62,7 @@ ASSUMPTIONS = ["Ed25519 signing/verification of ipv8.keyvault is trusted: a toke
 REACH = ["fork_children_before_parent", "chain_reversed", "forged_rejected", "foreign_rejected",
          "dangling_kept_unchained", "duplicate_ignored", "content_wrong_rejected", "content_right_attached",
          "content_via_token_attached", "roundtrip_ok", "upto_roundtrip_ok", "garbage_unserialize_raised",
-         "garbage_ignored", "waiting_area_overflow", "wire_feed", "token_withheld", "token_object_shared_between_trees"]
+         "garbage_ignored", "waiting_area_overflow", "wire_feed", "token_withheld", "token_object_shared_between_trees", "big_tree_roundtrip_ok"]
 SHRINK_FIELDS = ("order",)
 
 FORGE_BIT = 512          # first bit of the signature in the 128-byte wire form
@@ -238,6 +238,10 @@ def cases(tier: str, base_seed: int):  # noqa: ANN201
                 else:
                     rng.shuffle(perm)
                 yield _case("perm", next(seq), shape, [["tok", i] for i in perm])
+    for k, (kind, n) in enumerate((("chain", 90), ("chain", 260), ("deep", 400), ("random", 500)) if not thorough else
+                                  (("chain", 90), ("chain", 260), ("chain", 1000), ("deep", 400), ("deep", 1500), ("random", 500),
+                                   ("random", 2000))):
+        yield {"scenario": "bigtree", "seed": base_seed + k, "kind": kind, "n": n}
     per_shape = 60 if thorough else 6
     for k in range(per_shape):
         for n in range(1, 7):
@@ -271,6 +275,11 @@ def simplify(case: dict):  # noqa: ANN201
     Candidates tried by the runner after ddmin (a later accepted candidate replaces an earlier one, and every candidate
     derives from the case given here, so they go from least to most simplified).
     """
+    if case.get("scenario") == "bigtree":
+        for n in (150, 101, 60):
+            if n < case.get("n", 0):
+                yield dict(case, n=n)
+        return
     steps = []
     if case.get("feed", "gather") != "gather":
         steps.append(lambda cs: dict(cs, feed="gather"))
@@ -287,7 +296,53 @@ def simplify(case: dict):  # noqa: ANN201
 
 
 # --------------------------------------------------------------------------- execution
+def execute_big(case: dict) -> dict:
+    """A tree with (many) more tokens than the waiting area holds: its public serialisation reloads to the same tree."""
+    from ipv8.attestation.tokentree.tree import TokenTree
+    from ipv8.keyvault.crypto import default_eccrypto
+
+    c = Case(case, first_only=False)
+    rng = random.Random(f"c16/big/{case['seed']}")
+    key = default_eccrypto.generate_key("curve25519")
+    src = TokenTree(private_key=key)
+    n, kind = case["n"], case["kind"]
+    toks: list = []
+    for i in range(n):
+        if kind == "chain" or not toks:
+            after = toks[-1] if toks else None
+        elif kind == "deep":
+            after = toks[max(0, len(toks) - 1 - rng.randrange(3))]
+        else:
+            after = rng.choice(toks)
+        toks.append(src.add(b"big-%d" % i, after=after))
+    blob = src.serialize_public()
+    rx = TokenTree(public_key=key.pub())
+    try:
+        rx.unserialize_public(blob)
+    except Exception as e:  # noqa: BLE001
+        c.violate("roundtrip", "unserialize_public_raised", f"{type(e).__name__}: {e}")
+    want, got = set(src.elements), set(rx.elements)
+    if want != got:
+        c.violate("roundtrip", "serialize_roundtrip_differs",
+                  f"{kind} tree of {n} tokens: the reloaded tree holds {len(got)} of them ({len(rx.unchained)} left waiting)")
+    else:
+        c.probe("big_tree_roundtrip_ok")
+    leaf = toks[-1]
+    rx2 = TokenTree(public_key=key.pub())
+    rx2.unserialize_public(src.serialize_public(leaf))
+    path = {t.get_hash() for t in src.get_root_path(leaf)}
+    if set(rx2.elements) != path:
+        c.violate("roundtrip", "serialize_upto_roundtrip_differs",
+                  f"{kind} tree of {n} tokens: serialize_public(up_to=leaf) reloads to {len(rx2.elements)} of {len(path)} path tokens")
+    c.nontrivial(f"big/{kind}/{n}")
+    c.world.trace.event("c16big", None, (kind, n, len(got)))
+    c.sample = {"scenario": "bigtree", "kind": kind, "tokens": n, "reloaded": len(got)}
+    return c.result(evaluations=2)
+
+
 def execute(case: dict) -> dict:  # noqa: C901, PLR0912, PLR0915
+    if case.get("scenario") == "bigtree":
+        return execute_big(case)
     from ipv8.attestation.tokentree.token import Token
     from ipv8.attestation.tokentree.tree import TokenTree
     from ipv8.keyvault.crypto import default_eccrypto
